@@ -88,6 +88,16 @@ def _gen_function(prog, cfg, short, keep):
         else:
             seen[n] = 1
         hyps, pc, goal = build_vc(v, ob)
+        # cheap pre-filter: goals that already follow from the path condition alone (e.g. a per-type postcondition
+        # on a path of another type) need no hypotheses and no external solver
+        pre_s = z3.Solver()
+        pre_s.set("timeout", 150)
+        pre_s.add(pc)
+        pre_s.add(z3.Not(goal))
+        if pre_s.check() == z3.unsat:
+            jobs.append({"name": ob.name, "kind": ob.kind, "func": short, "ln": ob.ln, "clause": ob.text, "canary": ob.canary,
+                         "presolved": True})
+            continue
         text, fallback = solve.vc_texts(hyps, pc, goal)
         j = {"name": ob.name, "kind": ob.kind, "text": text, "fallback": fallback, "func": short, "ln": ob.ln, "clause": ob.text,
              "canary": ob.canary}
@@ -185,6 +195,14 @@ def run(pid, tier, repo="/repo", out_evidence=True, quiet=False):
     counted = 0
     samples = []
     for j in jobs:
+        if j.get("presolved"):
+            if not j.get("canary"):
+                counted += 1
+                discharged += 1
+                by_solver.setdefault("z3-5.1.0(api,path-condition-only)", {"count": 0, "ms": 0})["count"] += 1
+            else:
+                j["canary_passed"] = True
+            continue
         if "text" not in j:
             failed.append(j)
             counted += 1
